@@ -7,6 +7,7 @@ import LpProofs.C12.Lemmas
 import Mathlib.Tactic.Linarith
 import LpProofs.C12.Legendre
 import LpProofs.C12.N2
+import LpProofs.C12.Small
 import LpProofs.C12.N3
 import LpProofs.C12.RealGL
 import LpProofs.C12.Interval
@@ -211,6 +212,56 @@ theorem integ_history_independent (f : Rat → Rat) (z pp : Nat → Nat → Rat)
     (integSeq f z pp (pre ++ (n, a, b) :: post))[pre.length]?
       = some (integrateGLrule f (glAssemble n a b (z n) (pp n))) := by
   simp [integSeq, integrateGL]
+
+/-! ## the weight uses the derivative at the returned node (fix f38103c) -/
+
+/-- **newtonRootPP_pp**: in exact arithmetic the `pp` returned together with the node `z` IS the coded derivative
+    formula evaluated at that very `z` — `legendreDeriv n z = P_n'(z)` by `legendre_derivative` — not at the previous
+    Newton iterate.  This is exactly the situation of `gl_weight_formula` / `ppK_eq_deriv` (Weights.lean): `pp` is
+    `P_n'` at the node used. -/
+theorem newtonRootPP_pp (eps : Rat) (n fuel : Nat) (z0 z pp : Rat)
+    (h : newtonRootPP id eps n fuel z0 = some (z, pp)) :
+    z * z - 1 ≠ 0 ∧ pp = legendreDeriv n z ∧ pp ≠ 0 := by
+  unfold newtonRootPP at h
+  cases hl : newtonLoop id eps n fuel z0 with
+  | none => rw [hl] at h; simp at h
+  | some r =>
+    obtain ⟨zr, ppr⟩ := r
+    rw [hl] at h
+    simp only [] at h
+    by_cases h1 : zr * zr - 1 = 0
+    · simp [h1] at h
+    · by_cases h2 : id (ppOf n zr (legPairR id zr n).1 (legPairR id zr n).2) = 0
+      · exact absurd h2 (by simp [h1] at h; exact h.1)
+      · simp only [if_neg h1, if_neg h2, Option.some.injEq, Prod.mk.injEq] at h
+        obtain ⟨hz, hp⟩ := h
+        subst hz
+        refine ⟨h1, ?_, ?_⟩
+        · rw [← hp]; rfl
+        · rw [← hp]; exact h2
+
+/-- **coded_weight_at_returned_node**: the weight the code writes on `[-1,1]` for a returned pair `(z, pp)` equals
+    `codedWeight n z = 2/((1-z²) P_n'(z)²)` — the quantity `gl_weight_formula` identifies with the interpolatory
+    (Gauss) weight when `z` is a root of `P_n`; on `[a,b]` it is `(b-a)/2` times that (`gl_affine`). -/
+theorem coded_weight_at_returned_node (eps : Rat) (n fuel : Nat) (z0 z pp : Rat)
+    (h : newtonRootPP id eps n fuel z0 = some (z, pp)) (a b : Rat) :
+    weightOf 1 z pp = codedWeight n z ∧ weightOf (xHalfWidth a b) z pp = xHalfWidth a b * codedWeight n z := by
+  obtain ⟨_, hp, _⟩ := newtonRootPP_pp eps n fuel z0 z pp h
+  have e : weightOf 1 z pp = codedWeight n z := by rw [hp]; exact (codedWeight_eq_model n z).2.symm
+  refine ⟨e, ?_⟩
+  rw [← e]; unfold weightOf; ring
+
+/-- the middle root of an odd rule through the final re-evaluation: still `(0, P_n'(0))` -/
+theorem newtonRootPP_middle (cospi : Rat → Rat) (hc : cospi (1 / 2) = 0) (eps : Rat) (heps : 0 ≤ eps) (k fuel : Nat) :
+    newtonRootPP id eps (2 * k + 1) (fuel + 1) (cospi (guessArg (2 * k + 1) k))
+      = some (0, legendreDeriv (2 * k + 1) 0) := by
+  unfold newtonRootPP
+  rw [newton_middle_root cospi hc eps heps k fuel]
+  have hpp := (legendre_odd_zero k).2
+  have e1 : ¬ ((0 : Rat) * 0 - 1 = 0) := by norm_num
+  have hpp' : ¬ (id (ppOf (2 * k + 1) 0 (legPairR id 0 (2 * k + 1)).1 (legPairR id 0 (2 * k + 1)).2) = 0) := hpp
+  simp only [e1, if_false, hpp']
+  rfl
 
 /-! ## re-entrancy: nested use with limits depending on the outer variable -/
 
